@@ -24,9 +24,28 @@ def dbgEndStr : DbgEnd → String
   | .crash w => "crash " ++ w.replace " " "_"
   | .hang => "hang"
 
+/-- `debugLoop` (iterate `dbgTrans`), with the newest snapshot's stack function collapsed after every
+iteration and the transcript collected in pieces — driver-only measures against quadratic cost; the
+transitions are the model's -/
+def debugDrive (fname : List Char) (pcode : List PCmd) (code : List Cmd) (idx : List Nat) :
+    Nat → List (List Char) → Dbg HyN.NumI → Array (List Char) → Array (List Char) × DbgEnd
+  | 0, _, _, shown => (shown, .hang)
+  | fuel+1, lines, d, shown =>
+    match dbgTrans fname pcode code lines d with
+    | .done t e => (shown.push t, e)
+    | .cont lines' d' t =>
+      let d2 : Dbg HyN.NumI := { d' with hist := match d'.hist with
+        | sn :: r => { sn with st := collapse idx sn.st } :: r
+        | [] => [] }
+      debugDrive fname pcode code idx fuel lines' d2 (shown.push t)
+
 def debugOp (path fname src script : String) : String :=
-  let r := debugSession (N := HyN.NumI) 6000 (decText path) (decText fname) (decText src) (decText script)
-  s!"{encText r.1} {dbgEndStr r.2}"
+  let pcode := HyP.parse (decText src)
+  let code := pcode.map Cmd.ofParsed
+  let r := debugDrive (decText fname) pcode code (candidates code) 6000 (splitLines (decText script))
+    ⟨[⟨St.init, 0, []⟩], [0], false, [], []⟩
+    #[logLine "running in debug mode".toList ++ logLine ("parsing ".toList ++ decText path)]
+  s!"{encText r.1.toList.flatten} {dbgEndStr r.2}"
 
 def cliOutStr : Option CliOut → String
   | none => "hang"
